@@ -54,6 +54,7 @@ type tape struct {
 	over      bool // a Read went past the end of data (zeros were served)
 	maxRd     int  // largest single request
 	zeroReads int  // reads served entirely after the tape ran out
+	extraZero int  // legitimate number of draws of the call under test (a permutation of n draws n times)
 }
 
 // guarded runs f and reports whether the tape raised livelock.
@@ -82,7 +83,7 @@ func (t *tape) Read(b []byte) {
 	t.reads++
 	if t.over || len(b) == 0 {
 		t.zeroReads++
-		if t.zeroReads > maxZeroReads {
+		if t.zeroReads > maxZeroReads+t.extraZero {
 			panic(livelock{})
 		}
 	}
@@ -576,6 +577,16 @@ func stalePairs(ns []uint64) {
 type permJob struct {
 	fn   string
 	n, m int
+	// A: number of byte classes of the tape alphabet for this job (0: the caller's default);
+	// extra: how many bytes beyond the minimal tape length are followed (rejected draws)
+	A, extra int
+}
+
+func (j permJob) bits() uint {
+	if j.n > 8 {
+		return 8
+	}
+	return 3
 }
 
 func (j permJob) String() string {
@@ -614,6 +625,7 @@ type permWorker struct {
 
 func newPermWorker(j permJob, A int) *permWorker {
 	w := &permWorker{job: j, rg: newRig(), A: A, arr: make([]int, j.n), badRep: map[string]bool{}}
+	w.rg.tp.extraZero = j.n
 	for i := range w.counts {
 		w.counts[i] = map[uint32]uint32{}
 	}
@@ -627,19 +639,22 @@ func newPermWorker(j permJob, A int) *permWorker {
 	return w
 }
 
-func encode(s []int) uint32 {
+func encodeB(s []int, b uint) uint32 {
+	if uint(len(s))*b > 31 {
+		panic("harness: outcome does not fit the 32-bit code")
+	}
 	c := uint32(1)
 	for i := len(s) - 1; i >= 0; i-- {
-		c = c<<3 | uint32(s[i])
+		c = c<<b | uint32(s[i])
 	}
 	return c
 }
 
-func decode(c uint32) []int {
+func decodeB(c uint32, b uint) []int {
 	var s []int
 	for c > 1 {
-		s = append(s, int(c&7))
-		c >>= 3
+		s = append(s, int(c&(1<<b-1)))
+		c >>= b
 	}
 	return s
 }
@@ -652,7 +667,7 @@ func (w *permWorker) call() (uint32, string) {
 		if len(s) != wantLen {
 			return fmt.Sprintf("returned %d elements, want %d", len(s), wantLen)
 		}
-		var seen [8]bool
+		var seen [256]bool
 		for _, e := range s {
 			if e < 0 || e >= j.n {
 				return fmt.Sprintf("element %d outside [0,%d) in %v", e, j.n, s)
@@ -673,7 +688,7 @@ func (w *permWorker) call() (uint32, string) {
 		if b := validSeq(out, j.n); b != "" {
 			return 0, "invalid-output: " + b
 		}
-		return encode(out), ""
+		return encodeB(out, j.bits()), ""
 	case "SubPermutation":
 		out, err := p.SubPermutation(j.n, j.m)
 		if err != nil {
@@ -682,7 +697,7 @@ func (w *permWorker) call() (uint32, string) {
 		if b := validSeq(out, j.m); b != "" {
 			return 0, "invalid-output: " + b
 		}
-		return encode(out), ""
+		return encodeB(out, j.bits()), ""
 	case "Shuffle", "Samples":
 		for i := range w.arr {
 			w.arr[i] = i
@@ -702,7 +717,7 @@ func (w *permWorker) call() (uint32, string) {
 		if w.bad != "" {
 			return 0, "invalid-output: " + w.bad
 		}
-		return encode(w.arr[:m]), ""
+		return encodeB(w.arr[:m], j.bits()), ""
 	}
 	panic("harness: unknown fn")
 }
@@ -714,6 +729,7 @@ func (w *permWorker) dfs(prefix []byte) {
 	if guarded(func() { out, bad = w.call() }) {
 		bad = fmt.Sprintf("no-return-on-zero-continuation: still reading after %d all-zero attempts", maxZeroReads)
 		w.rg = newRig()
+		w.rg.tp.extraZero = w.job.n
 		w.rg.load(prefix)
 		w.rg.tp.over = true // treat as an inner node no further: do not count, do not extend
 		w.trunc++
@@ -732,7 +748,7 @@ func (w *permWorker) dfs(prefix []byte) {
 		}
 		return
 	}
-	if len(prefix) >= w.L0+2 {
+	if len(prefix) >= w.L0+w.job.extra {
 		w.trunc++
 		return
 	}
@@ -762,18 +778,137 @@ func permPart(nmax, alphaBits int) {
 	A := 1 << uint(alphaBits)
 	var jobs []permJob
 	for n := 0; n <= nmax; n++ {
-		jobs = append(jobs, permJob{"Permutation", n, n}, permJob{"Shuffle", n, n})
+		jobs = append(jobs, permJob{"Permutation", n, n, A, 2}, permJob{"Shuffle", n, n, A, 2})
 		for m := 0; m <= n; m++ {
-			jobs = append(jobs, permJob{"SubPermutation", n, m}, permJob{"Samples", n, m})
+			jobs = append(jobs, permJob{"SubPermutation", n, m, A, 2}, permJob{"Samples", n, m, A, 2})
 		}
 	}
+	runPermJobs(jobs, "perm", nmax)
+}
+
+// classBits measures on all 256 bytes and every range n' <= n the smallest k such that UintN(n')
+// cannot distinguish byte b from b mod 2^k.
+func classBits(n int) int {
+	rg := newRig()
+	for k := 0; k <= 8; k++ {
+		ok := true
+		for np := 2; np <= n && ok; np++ {
+			for b := 0; b < 256; b++ {
+				if rg.uintn(uint64(np), []byte{byte(b)}) != rg.uintn(uint64(np), []byte{byte(b & (1<<uint(k) - 1))}) {
+					ok = false
+					break
+				}
+			}
+		}
+		if ok {
+			return k
+		}
+	}
+	return 8
+}
+
+// sparsePart: LARGE n with SMALL m (m <= 3), the shapes for which an implementation may take a
+// different route than for m close to n (partial Fisher-Yates, sparse index maps, rejection of
+// duplicates). Same decision procedure as permPart: all tapes over the measured byte classes that
+// consume the minimal number of bytes (+1 rejected draw where affordable), every one run on the
+// real code; outputs are m distinct elements of [0,n) and all n!/(n-m)! outcomes are produced by
+// the same number of tapes.
+func sparsePart(thorough bool) {
+	var jobs []permJob
+	add := func(n, m, extra int) {
+		if m > n {
+			return
+		}
+		A := 1 << uint(classBits(n))
+		jobs = append(jobs, permJob{"SubPermutation", n, m, A, extra}, permJob{"Samples", n, m, A, extra})
+	}
+	for n := 9; n <= 34; n++ {
+		add(n, 1, 2)
+		add(n, 2, 1)
+		if thorough {
+			add(n, 3, 1)
+		} else {
+			add(n, 3, 0)
+		}
+	}
+	for _, n := range []int{48, 63, 64, 65, 100, 128, 129, 200, 255, 256} {
+		add(n, 1, 1)
+		if thorough || n <= 65 {
+			add(n, 2, 0)
+		}
+	}
+	// The full tape tree is enumerable only when a call consumes few bytes. Measure that on the
+	// real code: jobs that need at most 4 bytes are decided exactly like permPart (validity AND
+	// counting over all tapes); the others (this library's SubPermutation draws a full
+	// Permutation(n), i.e. n bytes) are explored deviation-bounded: all tapes that differ from the
+	// all-zero tape in at most 2 draws (1 for n > 34), validity of every output only.
+	var full, bounded []permJob
+	for _, j := range jobs {
+		w := newPermWorker(j, j.A)
+		w.rg.load(nil)
+		if guarded(func() { w.call() }) || w.rg.tp.want <= 4 {
+			full = append(full, j)
+		} else {
+			bounded = append(bounded, j)
+		}
+	}
+	runPermJobs(full, "sparse", 256)
+	var bruns atomic.Int64
+	ev.Par(len(bounded), func(i int) {
+		j := bounded[i]
+		w := newPermWorker(j, j.A)
+		w.rg.load(nil)
+		w.call()
+		L := w.rg.tp.want
+		dev := 2
+		if j.n > 34 || (!thorough && j.m < 3) {
+			dev = 1
+		}
+		tp := make([]byte, L)
+		runOne := func() {
+			w.rg.load(tp)
+			var bad string
+			if guarded(func() { _, bad = w.call() }) {
+				return // needs bytes beyond the tape after rejected draws: not followed here
+			}
+			bruns.Add(1)
+			if bad != "" && !w.rg.tp.over {
+				w.report(append([]byte{}, tp...), bad)
+			}
+		}
+		runOne()
+		for p1 := 0; p1 < L; p1++ {
+			for v1 := 1; v1 < j.A; v1++ {
+				tp[p1] = byte(v1)
+				runOne()
+				if dev >= 2 {
+					for p2 := p1 + 1; p2 < L; p2++ {
+						for v2 := 1; v2 < j.A; v2++ {
+							tp[p2] = byte(v2)
+							runOne()
+						}
+						tp[p2] = 0
+					}
+				}
+			}
+			tp[p1] = 0
+		}
+		run.Distinct(fmt.Sprintf("pb/%v", j))
+	})
+	evals.Add(bruns.Load())
+	run.Set("sparse_bounded_jobs", len(bounded))
+	run.Set("sparse_bounded_runs_on_real_code", bruns.Load())
+	run.Set("sparse_shapes", "SubPermutation/Samples (n,m): n=9..34 x m<=3; n in {48,63,64,65,100,128,129,200,255,256} x m<=2; calls consuming <= 4 tape bytes: all tapes, validity and exact counting; calls consuming more (SubPermutation draws n bytes): all tapes with <= 2 non-zero draws (<= 1 for n > 34 and, in the quick tier, for m < 3), validity only")
+}
+
+func runPermJobs(jobs []permJob, label string, nmax int) {
 	// big jobs first, each split by its first tape byte
 	sort.SliceStable(jobs, func(a, b int) bool { return jobs[a].n > jobs[b].n })
 	results := make([]permResult, len(jobs))
 	type sub struct{ job, first int }
 	var subs []sub
 	for ji, j := range jobs {
-		w := newPermWorker(j, A)
+		w := newPermWorker(j, j.A)
 		w.rg.load(nil)
 		if guarded(func() { w.call() }) {
 			w.report(nil, fmt.Sprintf("no-return-on-zero-continuation: still reading after %d all-zero attempts", maxZeroReads))
@@ -785,7 +920,7 @@ func permPart(nmax, alphaBits int) {
 		if results[ji].L0 == 0 {
 			subs = append(subs, sub{ji, -1})
 		} else {
-			for b := 0; b < A; b++ {
+			for b := 0; b < j.A; b++ {
 				subs = append(subs, sub{ji, b})
 			}
 		}
@@ -798,7 +933,7 @@ func permPart(nmax, alphaBits int) {
 			return
 		}
 		s := subs[i]
-		w := newPermWorker(jobs[s.job], A)
+		w := newPermWorker(jobs[s.job], jobs[s.job].A)
 		w.L0 = results[s.job].L0
 		w.rg.tp.maxRd = 0
 		if s.first < 0 {
@@ -821,7 +956,7 @@ func permPart(nmax, alphaBits int) {
 		mu.Unlock()
 	})
 	if skipped.Load() > 0 {
-		run.Set("perm_subtrees_skipped_by_budget", skipped.Load())
+		run.Set(label+"_subtrees_skipped_by_budget", skipped.Load())
 		return
 	}
 	// judge
@@ -856,7 +991,7 @@ func permPart(nmax, alphaBits int) {
 			if len(cm) != exp {
 				// find a missing outcome
 				viol(key, fmt.Sprintf("%v: tapes consuming %d bytes reach %d distinct outcomes, there are %d", j, r.L0+d, len(cm), exp),
-					replay{Kind: "perm", Fn: j.fn, NInt: j.n, M: j.m, Note: fmt.Sprintf("enumerate all tapes over bytes 0..%d consuming exactly %d bytes", A-1, r.L0+d)})
+					replay{Kind: "perm", Fn: j.fn, NInt: j.n, M: j.m, Note: fmt.Sprintf("enumerate all tapes over bytes 0..%d consuming exactly %d bytes", j.A-1, r.L0+d)})
 				continue
 			}
 			var c0 uint32
@@ -868,9 +1003,9 @@ func permPart(nmax, alphaBits int) {
 					continue
 				}
 				if v != c0 {
-					viol(key, fmt.Sprintf("%v: among tapes consuming %d bytes outcome %v is produced by %d tapes but outcome %v by %d", j, r.L0+d, decode(k0), c0, decode(k), v),
-						replay{Kind: "perm", Fn: j.fn, NInt: j.n, M: j.m, Got: fmt.Sprintf("%v x%d, %v x%d", decode(k0), c0, decode(k), v),
-							Note: fmt.Sprintf("enumerate all tapes over bytes 0..%d consuming exactly %d bytes", A-1, r.L0+d)})
+					viol(key, fmt.Sprintf("%v: among tapes consuming %d bytes outcome %v is produced by %d tapes but outcome %v by %d", j, r.L0+d, decodeB(k0, j.bits()), c0, decodeB(k, j.bits()), v),
+						replay{Kind: "perm", Fn: j.fn, NInt: j.n, M: j.m, Got: fmt.Sprintf("%v x%d, %v x%d", decodeB(k0, j.bits()), c0, decodeB(k, j.bits()), v),
+							Note: fmt.Sprintf("enumerate all tapes over bytes 0..%d consuming exactly %d bytes", j.A-1, r.L0+d)})
 					break
 				}
 			}
@@ -883,10 +1018,13 @@ func permPart(nmax, alphaBits int) {
 		}
 	}
 	evals.Add(totalRuns)
-	run.Set("perm_jobs", len(jobs))
-	run.Set("perm_runs_on_real_code", totalRuns)
-	run.Set("perm_complete_tapes_judged", totalLeaves)
-	run.Set("perm_summary", summary)
+	run.Set(label+"_jobs", len(jobs))
+	run.Set(label+"_runs_on_real_code", totalRuns)
+	run.Set(label+"_complete_tapes_judged", totalLeaves)
+	run.Set(label+"_summary", summary)
+	if label != "perm" {
+		return
+	}
 	run.Sample(map[string]any{"part": "P", "call": "Samples(5,3)", "tape_hex": "070301", "meaning": "byte 07 is rejected for UintN(5), 03 accepted, then 01 for UintN(4), the tape ends: UintN(3) reads zeros (flagged, prefix is extended by every class byte)"})
 }
 
@@ -1142,6 +1280,7 @@ func main() {
 		"U3: n>2^16 from the special set: 256 top bytes x ~10 corner patterns of the lower bytes, one bit width B must explain all observations as v=tape mod 2^B, accept iff v<n, return v; 0 and n-1 reachable; continuation after 1 and 2 rejections; (the 256^size space is NOT enumerable there: pattern coverage only); "+
 		"U4: all ordered pairs (n1,n2) of a boundary set: UintN(n2) after UintN(n1) equals UintN(n2) on a fresh object for ~10 boundary tapes x 3 first tapes; "+
 		"P: Permutation/SubPermutation/Shuffle/Samples for all n<=nmax, m<=n: DFS over all tapes over one representative byte per measured indistinguishability class, all tapes consuming <= minimal+2 bytes, every run on the real code; outputs valid, per consumed length all n!/(n-m)! outcomes produced by the same number of tapes; "+
+		"P2 (sparse shapes): SubPermutation/Samples(n,m) for n=9..34 with m<=3 and n in {48,63,64,65,100,128,129,200,255,256} with m<=2: calls consuming <= 4 tape bytes are decided like P over all tapes; calls consuming more (SubPermutation = full Permutation(n)) over all tapes with <= 2 non-zero draws, validity only; "+
 		"E: all (n,m) in {-2^63,-2^31,-1000,-4..9}^2 must error iff n<0 or m<0 or m>n; S: equal seeds/customizers give equal outputs on a fixed call script with the real ChaCha20 core. "+
 		"distinct_nontrivial counts distinct n (U1,U3,U4 first argument), distinct (function,n,m,outcome) reached in P, distinct argument tuples in E, seed configurations in S; evaluations = library calls judged.")
 	run.Set("uintn_exhaustive_bound_requested", N)
@@ -1260,6 +1399,7 @@ func main() {
 		run.Set("perm_nmax_reduced_because_alphabet_is_wider_than_3_bits", true)
 	}
 	permPart(nmax, k)
+	sparsePart(run.Thorough())
 
 	argsPart()
 	seedsPart()
